@@ -29,6 +29,8 @@ type tcase struct {
 	id   string
 	cut  int
 	disk bool
+	rid  uint64
+	from uint64
 	cmds []command
 }
 
@@ -40,13 +42,19 @@ func parseCase(line string) tcase {
 		hd = line[:len(line)-2]
 	}
 	f := strings.Fields(hd)
-	c := tcase{id: f[0], cut: -1}
+	c := tcase{id: f[0], cut: -1, rid: 1, from: 2}
 	for _, kv := range f[1:] {
 		if strings.HasPrefix(kv, "cut=") {
 			c.cut, _ = strconv.Atoi(kv[4:])
 		}
 		if kv == "kind=disk" {
 			c.disk = true
+		}
+		if strings.HasPrefix(kv, "rid=") {
+			c.rid, _ = strconv.ParseUint(kv[4:], 10, 64)
+		}
+		if strings.HasPrefix(kv, "from=") {
+			c.from, _ = strconv.ParseUint(kv[5:], 10, 64)
 		}
 	}
 	for _, s := range strings.Split(body, " ; ") {
@@ -59,6 +67,10 @@ func parseCase(line string) tcase {
 }
 
 func caseLine(id string, cut int, disk bool, cmds []command) string {
+	return caseLineIDs(id, cut, disk, 1, 2, cmds)
+}
+
+func caseLineIDs(id string, cut int, disk bool, rid uint64, from uint64, cmds []command) string {
 	var s []string
 	for _, c := range cmds {
 		s = append(s, c.String())
@@ -66,6 +78,9 @@ func caseLine(id string, cut int, disk bool, cmds []command) string {
 	k := ""
 	if disk {
 		k = " kind=disk"
+	}
+	if rid != 1 || from != 2 {
+		k += fmt.Sprintf(" rid=%d from=%d", rid, from)
 	}
 	return fmt.Sprintf("%s cut=%d%s | %s", id, cut, k, strings.Join(s, " ; "))
 }
@@ -81,6 +96,16 @@ func opsString(ops []string) string {
 // recorded operations, whether the cut fell strictly inside a command, and the
 // monitor's messages.
 func runCase(c tcase, dist map[string]int) (lines []string, total int, inside bool, viol []string) {
+	replicaID, fromID = c.rid, c.from
+	if replicaID == 0 {
+		replicaID = 1
+	}
+	if fromID == 0 || fromID == replicaID {
+		fromID = replicaID + 1
+		if fromID == 0 {
+			fromID = 1
+		}
+	}
 	w := newWorldKind(c.cut, c.disk)
 	w.r.distinct = dist
 	for n, cmd := range c.cmds {
@@ -239,6 +264,14 @@ func randomSeq(r *vh.Rand, maxLen int) []command {
 	return out
 }
 
+func parseSeq(s string) []command {
+	var out []command
+	for _, x := range strings.Split(s, ";") {
+		out = append(out, parseCommand(strings.TrimSpace(x)))
+	}
+	return out
+}
+
 func diskScenarios() [][]command {
 	p := func(s string) []command {
 		var out []command
@@ -329,6 +362,36 @@ func gen(a vh.Args) {
 	}
 	for k, cmds := range seqs {
 		emit("s", k, false, cmds)
+	}
+	// replica / sender ids and snapshot indices at the boundaries of uint64 and of the
+	// decimal / hexadecimal name formats
+	ids := []uint64{9999999999999999, 10000000000000000, 1 << 63, 1<<64 - 1, 1<<64 - 2, 99999999999999999}
+	bseqs := [][]command{
+		parseSeq("SAVE 5 1; RECV 5 2; COMMIT 5; APPLY 5"),
+		parseSeq("SAVE 18446744073709551615 1; COMMIT 18446744073709551615"),
+		parseSeq("RECVX 9999999999999999 2 1; APPLY 9999999999999999; SAVE 10000000000000000 0; COMMIT 10000000000000000; COMPACT 9999999999999999"),
+		parseSeq("RECV 9223372036854775808 1; SAVE 9223372036854775807 1; COMMIT 9223372036854775807; APPLY 9223372036854775808; SHRINK 9223372036854775808"),
+	}
+	for k, cmds := range bseqs {
+		rid, from := ids[(2*k)%len(ids)], ids[(2*k+1)%len(ids)]
+		if k%2 == 1 {
+			rid, from = from, 3
+		}
+		replicaID, fromID = rid, from
+		_, total, _, _ := runCase(tcase{id: "probe", cut: -1, rid: rid, from: from, cmds: cmds}, nil)
+		w.Printf("%s\n", caseLineIDs(fmt.Sprintf("b%dfull", k), -1, false, rid, from, cmds))
+		for cut := 0; cut <= total; cut++ {
+			w.Printf("%s\n", caseLineIDs(fmt.Sprintf("b%dk%d", k, cut), cut, false, rid, from, cmds))
+		}
+	}
+	dcmds := parseSeq("RECV 9 2; APPLY 9; RECOVER 9; ENTRIES 12; DSAVE; CRASH")
+	{
+		rid, from := uint64(1<<64-1), uint64(10000000000000000)
+		_, total, _, _ := runCase(tcase{id: "probe", cut: -1, disk: true, rid: rid, from: from, cmds: dcmds}, nil)
+		w.Printf("%s\n", caseLineIDs("bdfull", -1, true, rid, from, dcmds))
+		for cut := 0; cut <= total; cut++ {
+			w.Printf("%s\n", caseLineIDs(fmt.Sprintf("bdk%d", cut), cut, true, rid, from, dcmds))
+		}
 	}
 	dseqs := diskScenarios()
 	for len(dseqs) < ndisk {
